@@ -2,6 +2,8 @@ package props
 
 import (
 	"fmt"
+
+	"lwverif/internal/flow"
 )
 
 func init() { Register("C01", checkC01) }
@@ -82,6 +84,25 @@ func dataFrameVariants() []avariant {
 		}
 		out = append(out, v)
 	}
+	// the same with FPort 0 (MAC commands in the FRMPayload, no FOpts): a stale non-zero nibble must not make the
+	// encoder believe that FOpts are present and refuse the frame
+	for _, m := range []int{0, 1} {
+		v := avariant{Name: fmt.Sprintf("mtype2/fopts0/fport=0/frm%d/stale-foptslen", m), NoStream: true,
+			Dyn:    map[string]string{"MACPayload": ":MACPayload"},
+			Fix:    map[string]int64{"MHDR.MType": 2, "MACPayload.*.FPort.*": 0},
+			Lens:   map[string]int{},
+			NonNil: []string{"MACPayload.*.FPort"},
+			Where:  map[string][2]int64{},
+			Equal:  [][2]string{{mpFHDR + ".FCtrl.ClassB", mpFHDR + ".FCtrl.FPending"}},
+			Ignore: []string{mpFHDR + ".FCtrl.fOptsLen"},
+			Size:   1 + 7 + 1 + m + 4}
+		if m > 0 {
+			v.Lens["MACPayload.*.FRMPayload"] = 1
+			v.Dyn["MACPayload.*.FRMPayload[0]"] = ":DataPayload"
+			v.Lens["MACPayload.*.FRMPayload[0].*.Bytes"] = m
+		}
+		out = append(out, v)
+	}
 	return out
 }
 
@@ -153,18 +174,42 @@ func checkC01(c *Ctx) {
 
 // c01Text: PHYPayload.MarshalText = base64.StdEncoding.EncodeToString(MarshalBinary()), UnmarshalText the converse.
 func c01Text(c *Ctx) {
-	r := c.Run
-	for _, t := range []struct{ fn, bin, b64 string }{
-		{"PHYPayload.MarshalText", "MarshalBinary", "EncodeToString"},
-		{"PHYPayload.UnmarshalText", "UnmarshalBinary", "DecodeString"},
-	} {
-		got := ssaCallees(c, "", t.fn)
-		if got == nil {
-			r.Unknown("R4.text", t.fn, "", "anchor function present", "missing")
-			continue
+	const rule = "R4.text"
+	const b64 = "(*encoding/base64.Encoding)."
+	std := flow.Global("encoding/base64.StdEncoding")
+	// MarshalText: the only successful result is []byte(base64.StdEncoding.EncodeToString(MarshalBinary(p)))
+	if fn := flowFn(c, rule, "", "PHYPayload.MarshalText"); fn != nil {
+		e := flow.For(fn)
+		bin := flow.Call("(lorawan.PHYPayload).MarshalBinary", flow.Param(0))
+		want := flow.Conv("[]byte", flow.Call(b64+"EncodeToString", std, flow.Extract(bin, 0)))
+		n := 0
+		for _, r := range flow.Returns(fn) {
+			if !mayReturnNil(e, r, errIndex(fn)) {
+				continue
+			}
+			n++
+			checkTerm(c, rule, fmt.Sprintf("%s/success#%d", fnKey(fn), n), ipos(c, r), "text form", e.Select(r.Results[0], nil, r), want)
 		}
-		okBin := got["(github.com/brocaar/lorawan.PHYPayload)."+t.bin] || got["(*github.com/brocaar/lorawan.PHYPayload)."+t.bin]
-		okB64 := got["(*encoding/base64.Encoding)."+t.b64]
-		r.Check(okBin && okB64, "R4.text", t.fn, "", "calls "+t.bin+" and base64 "+t.b64, fmt.Sprint(keysOfBool(got)), true)
+		if n == 0 {
+			c.Run.Unknown(rule, fnKey(fn)+"/success", fpos(c, fn), "a return with a nil error", "none")
+		}
+	}
+	// UnmarshalText: the binary decoder is called exactly once, on base64.StdEncoding.DecodeString(string(text)), and
+	// only when that decoding succeeded; no other interpretation of the text is tried first
+	if fn := flowFn(c, rule, "", "PHYPayload.UnmarshalText"); fn != nil {
+		e := flow.For(fn)
+		dec := flow.Call(b64+"DecodeString", std, flow.Conv("string", flow.Param(1)))
+		sites := flow.Calls(fn, flow.Named("(*lorawan.PHYPayload).UnmarshalBinary"))
+		c.Run.Check(len(sites) == 1, rule, fnKey(fn)+"/decode-sites", fpos(c, fn), "exactly one call of UnmarshalBinary (one interpretation of the text)", fmt.Sprintf("%d calls", len(sites)), true)
+		for i, s := range sites {
+			key := fmt.Sprintf("%s/decode#%d", fnKey(fn), i+1)
+			if len(s.Args) == 2 {
+				checkTerm(c, rule, key+"/receiver", ipos(c, s.Instr), "receiver", s.Args[0], flow.Param(0))
+				checkTerm(c, rule, key+"/input", ipos(c, s.Instr), "decoded bytes", s.Args[1], flow.Extract(dec, 0))
+			}
+			pc := e.PathCond(s.Instr.Block(), nil)
+			okGuard := flow.Implies(pc, flow.Eq(flow.Extract(dec, 1), flow.Nil()))
+			c.Run.Check(okGuard, rule, key+"/guard", ipos(c, s.Instr), "reached only when the base64 decoding returned no error", pc.String(), true)
+		}
 	}
 }
